@@ -22,7 +22,7 @@ from __future__ import annotations
 
 import ast
 
-from ..astutil import attr_chain, callee_name, calls, is_name, is_self_attr, text
+from ..astutil import call_recv, attr_chain, callee_name, calls, is_name, is_self_attr, text
 from ..core import Result
 from ..model import AnchorMissing, Repo, walk_no_nested
 
@@ -71,7 +71,7 @@ def run(repo: Repo) -> Result:
                 for x in ast.walk(w):
                     locked_nodes.add(id(x))
         for c in calls(o.node):
-            is_super = isinstance(c.func, ast.Attribute) and isinstance(c.func.value, ast.Call) and callee_name(c.func.value) == "super"
+            is_super = isinstance(c.func, ast.Attribute) and isinstance(call_recv(c), ast.Call) and callee_name(call_recv(c)) == "super"
             if is_super and id(c) not in locked_nodes:
                 res.add("C24-LOCK", o.qual, f"unlocked:{text(c)[:30]}", f"{o.qual}: `{text(c)[:40]}` runs outside `with self._lock`", o.file, c.lineno)
         for x in ast.walk(o.node):
@@ -79,7 +79,7 @@ def run(repo: Repo) -> Result:
                 res.add("C24-LOCK", o.qual, "unlocked:_cache", f"{o.qual} touches self._cache outside `with self._lock`", o.file, x.lineno)
         if not any(isinstance(w, ast.With) and any(attr_chain(it.context_expr) == ["self", "_lock"] for it in w.items) for w in ast.walk(o.node)):
             # may delegate to locked methods only (get -> self[key])
-            if any(is_self_attr(c.func) or (isinstance(c.func, ast.Attribute) and isinstance(c.func.value, ast.Call)) for c in calls(o.node)):
+            if any(is_self_attr(c.func) or (isinstance(c.func, ast.Attribute) and isinstance(call_recv(c), ast.Call)) for c in calls(o.node)):
                 res.add("C24-LOCK", o.qual, "no-lock", f"{o.qual} never takes the lock", o.file, o.line)
         # C24-EAGER
         if is_lazy:
@@ -117,14 +117,14 @@ def run(repo: Repo) -> Result:
         k = repo.cls(cq)
         for name, m in k.methods.items():
             for c in calls(m.node):
-                if callee_name(c) in ("get", "pop", "setdefault") and isinstance(c.func, ast.Attribute) and attr_chain(c.func.value) == ["self", "_cache"] and (callee_name(c) != "pop" or len(c.args) > 1):
+                if callee_name(c) in ("get", "pop", "setdefault") and isinstance(c.func, ast.Attribute) and attr_chain(call_recv(c)) == ["self", "_cache"] and (callee_name(c) != "pop" or len(c.args) > 1):
                     res.add("C24-PRESENCE", m.qual, f"_cache.{callee_name(c)}", f"{m.qual} reads the map with `{text(c)[:50]}`: presence is then decided from the stored value, so a cached None is reported missing (and the read does not refresh recency)", m.file, c.lineno)
         g = k.methods.get("get")
         if g is None:
             continue
         res.ob(f"presence:{g.qual}")
         hit_via_getitem = any(isinstance(n, ast.Subscript) and is_name(n.value, "self") and isinstance(n.ctx, ast.Load) for n in ast.walk(g.node)) or any(callee_name(c) == "__getitem__" for c in calls(g.node))
-        delegates = any(callee_name(c) == "get" and isinstance(c.func.value, ast.Call) and callee_name(c.func.value) == "super" for c in calls(g.node))
+        delegates = any(callee_name(c) == "get" and isinstance(call_recv(c), ast.Call) and callee_name(call_recv(c)) == "super" for c in calls(g.node))
         if not (hit_via_getitem or delegates):
             res.add("C24-PRESENCE", g.qual, "hit-path", f"{g.qual} must return a present key's value through self[key] (which refreshes recency) or delegate to the base get", g.file, g.line)
         for n in ast.walk(g.node):
